@@ -26,7 +26,12 @@ def check_op(inp):
     n = inp['n']
     edges = [tuple(e) for e in inp['edges']]
     nm, names = _names(inp)
-    g = build(inp)
+    try:
+        g = build(inp)
+    except core.HarnessError:
+        raise
+    except Exception as e:
+        return _fail(inp, 'building the graph', 'the graph can be built', 'raised %s: %s' % (type(e).__name__, e))
     before = G.snapshot_graph(g)
     # identity of the successor sets is compared only if next() hands out stable objects
     stable = all(g.next(v) is g.next(v) for v in g.nodes())
